@@ -8,8 +8,11 @@ from . import core, env, tlc
 
 
 def registry():
-    from . import p_binary, p_layout, p_file, p_cuts, p_writer, p_schema, p_logical
+    from . import p_binary, p_layout, p_file, p_cuts, p_writer, p_schema, p_logical, p_data
     return {
+        "C09": p_data.run_c09,
+        "C10": p_data.run_c10,
+        "C20": p_data.run_c20,
         "C16": p_logical.run_c16,
         "C11": p_schema.run_c11,
         "C13": p_schema.run_c13,
